@@ -39,6 +39,8 @@ def history(arg):
         used |= {'pch_' + d['name'] for d in decls if d.get('pch')}
         if any(d.get('hdr') for d in decls):
             used.add('h2')
+        if any(d.get('vlib') for d in decls):
+            used.add('v1')
         for f in sorted(used):
             ev.append(r.touch(f=f))
             ev.append(r.build('all'))
@@ -60,7 +62,7 @@ def directed():
     generated header produced from another target's output"""
     B = dict(kind='', name='', srcs=[], libs=[], ins=[], nouts=1,
              always=False, deps=[], dist=True, pch=False, xdeps=[], cdeps=[],
-             hdr=False,
+             vlib=False, hdr=False,
              mode='copy')
 
     def F(f):
@@ -118,8 +120,9 @@ def directed():
     for how in ('default', 'install', 'default+exe', 'implicit'):
         sc = [dict(B, kind='step', name='t1', ins=[F('d1')], nouts=2),
               dict(B, kind='dlib', name='t2', srcs=[F('s1'), T('t1')],
-                   ins=[T('t1')]),
-              dict(B, kind='exe', name='t3', srcs=[F('s2')], libs=['t2']),
+                   ins=[T('t1')], vlib=(how == 'default')),
+              dict(B, kind='exe', name='t3', srcs=[F('s2')], libs=['t2'],
+                   vlib=(how != 'install')),
               dict(B, kind='exe', name='t4', srcs=[F('s3')])]
         if how == 'default':
             sc.append(dict(B, kind='default', name='t5', deps=['t2']))
